@@ -37,13 +37,17 @@ ReadDir(files, path) ==
      ELSE IF files[path] # "dir" THEN [cls |-> "err", v |-> {}]
      ELSE [cls |-> "ok", v |-> {Rest(k, prefix) : k \in hits}]
 
-\* ---- remove_dir, transcribed (result class + new key set)
+Without(files, k) == [x \in DOMAIN files \ {k} |-> files[x]]
+With(files, k, v) == [x \in DOMAIN files \cup {k} |-> IF x = k THEN v ELSE files[x]]
+R(cls, files) == [cls |-> cls, files |-> files, keys |-> DOMAIN files]
+
+\* ---- remove_dir, transcribed (result class + new map)
 RemoveDir(files, path) ==
   LET prefix == path \o <<Slash>> IN
-  IF path \notin DOMAIN files THEN [cls |-> "notfound", keys |-> DOMAIN files]
-  ELSE IF files[path] # "dir" THEN [cls |-> "err", keys |-> DOMAIN files]
-  ELSE IF \E k \in DOMAIN files : StartsWith(k, prefix) THEN [cls |-> "err", keys |-> DOMAIN files]
-  ELSE [cls |-> "ok", keys |-> DOMAIN files \ {path}]
+  IF path \notin DOMAIN files THEN R("notfound", files)
+  ELSE IF files[path] # "dir" THEN R("err", files)
+  ELSE IF \E k \in DOMAIN files : StartsWith(k, prefix) THEN R("err", files)
+  ELSE R("ok", Without(files, path))
 
 \* ---- create_dir / create_file parent lookup: VfsPath::parent() cuts at the LAST '/'
 LastSlash(s) == CHOOSE i \in DOMAIN s : s[i] = Slash /\ \A j \in DOMAIN s : s[j] = Slash => j <= i
@@ -53,8 +57,20 @@ FileName(s) == IF s = <<>> THEN <<>> ELSE SubSeq(s, LastSlash(s) + 1, Len(s))
 \* ---- ensure_has_parent + create_dir, transcribed (one write lock)
 CreateDir(files, path) ==
   IF path = <<>> \/ ParentKey(path) \notin DOMAIN files \/ files[ParentKey(path)] # "dir"
-  THEN [cls |-> "err", keys |-> DOMAIN files]
+  THEN R("err", files)
   ELSE IF path \in DOMAIN files
-  THEN [cls |-> IF files[path] = "file" THEN "file_exists" ELSE "dir_exists", keys |-> DOMAIN files]
-  ELSE [cls |-> "ok", keys |-> DOMAIN files \cup {path}]
+  THEN R(IF files[path] = "file" THEN "file_exists" ELSE "dir_exists", files)
+  ELSE R("ok", With(files, path, "dir"))
+
+\* ---- remove_file, create_file (the open; the handle's publication is VfsHandles' business), exists, metadata
+RemoveFile(files, path) ==
+  IF path \notin DOMAIN files THEN R("notfound", files)
+  ELSE IF files[path] # "file" THEN R("err", files)
+  ELSE R("ok", Without(files, path))
+CreateFile(files, path) ==
+  IF path = <<>> \/ ParentKey(path) \notin DOMAIN files \/ files[ParentKey(path)] # "dir" THEN R("err", files)
+  ELSE IF path \in DOMAIN files /\ files[path] # "file" THEN R("err", files)
+  ELSE R("ok", With(files, path, "file"))
+Exists(files, path) == path \in DOMAIN files
+MetadataKind(files, path) == IF path \in DOMAIN files THEN files[path] ELSE "notfound"
 =============================================================================
